@@ -1,7 +1,177 @@
 import Mutagen.Driver.Util
+import Mutagen.Model.IgnoreDocker
+import Mutagen.Model.DockerSpec
 namespace Mutagen.Driver.C15
+open Mutagen.Driver Mutagen.Model.IgnoreDocker Mutagen.Model.DockerSpec
+open Mutagen.Model.IgnoreCore
 
-/-- Model-side handler for one line of the C15 correspondence stream. -/
-def handle (_line : String) : String := "unimplemented"
+/-!
+Line: `w <patterns> <ancestor> <tree>` (strings are hex of valid UTF-8)
+  patterns: `-` or comma separated `x:<cleaned>` (exclusion, "!") / `i:<cleaned>`
+  ancestor: `-` (none), `@` (an empty root directory) or tree tokens `d:<name>` `f:<name>` `[` `]`
+  tree:     comma separated tokens `f:<name>:<bits>` `l:<name>:<bits>` `d:<name>:<bits>` `[` `]`;
+            `<bits>` = one 0/1 per pattern: does the pattern match this node's path (the
+            abstract per-pattern match, supplied as a table by the real `Pattern.match`)
+Line: `c <pattern>` — docker/ignore.go + patternmatcher.New cleaning of one pattern
+  → `ok <x|i> <cleaned>` | `err <kind>` (`unsupported` for patterns with brackets)
+Answer to `w`: `I=…;S=…;N=…;M=…;C=…;D=…;H=…`
+  I  per node, in walk order: what `Ignore(path, isDirectory)` answers — status letter
+     (n/i/u) followed by the traversal-continuation bit
+  S  scan with the Docker-style ignorer + ReifyPhantomDirectories(ancestor, ·, nil): `path:kind,…`
+  N  the directory count reification returns
+  M  the non-recursive "deepest matched prefix wins + prefix pruning" characterisation (leaves);
+     the harness prints the file/link leaves of the real reified snapshot here
+  C  the non-recursive characterisation of Docker's walk (leaves); the harness prints the
+     file/link leaves of the real reference walk here
+  D  Docker's walk (files `f`, links `l`, directories `d`)
+  H  1 iff `NoDepthOrderInversion` holds for these patterns and this tree
+-/
+
+abbrev Pat := Nat × Bool × Str
+
+def decStr (s : String) : Option Str := do
+  let bs ← decHex s
+  let str ← String.fromUTF8? (ByteArray.mk bs.toArray)
+  pure str.toList
+
+def encStr (s : Str) : String := encHex (String.ofList s).toUTF8.toList
+
+def parsePats (s : String) : Option (List Pat) :=
+  if s == "-" then some [] else
+  (s.splitOn ",").zipIdx.mapM fun (t, i) =>
+    match t.splitOn ":" with
+    | ["x", h] => (decStr h).map fun c => (i, true, c)
+    | ["i", h] => (decStr h).map fun c => (i, false, c)
+    | _ => none
+
+/-- Tree tokens with match bits; returns children, the table rows `(path, bits)` and the rest. -/
+def parseItems : Nat → Str → List String → Option (List (Str × Node) × List (Str × List Bool) × List String)
+  | 0, _, _ => none
+  | _ + 1, _, [] => some ([], [], [])
+  | fuel + 1, pre, tok :: rest =>
+    if tok == "]" then some ([], [], tok :: rest) else
+    match tok.splitOn ":" with
+    | [k, h, bits] =>
+      match decStr h with
+      | none => none
+      | some name =>
+        let path := joinable pre ++ name
+        let row := (path, if bits == "-" then [] else bits.toList.map (· == '1'))
+        if k == "d" then
+          match rest with
+          | "[" :: rest1 =>
+            match parseItems fuel path rest1 with
+            | some (cs, rows, "]" :: rest2) =>
+              match parseItems fuel pre rest2 with
+              | some (sibs, rows2, r) => some ((name, Node.dir cs) :: sibs, row :: rows ++ rows2, r)
+              | none => none
+            | _ => none
+          | _ => none
+        else
+          let node? : Option Node := if k == "f" then some .file else if k == "l" then some .link else none
+          match node?, parseItems fuel pre rest with
+          | some node, some (sibs, rows2, r) => some ((name, node) :: sibs, row :: rows2, r)
+          | _, _ => none
+    | _ => none
+
+def parseTree (s : String) : Option (List (Str × Node) × List (Str × List Bool)) :=
+  if s == "-" then some ([], []) else
+  let toks := s.splitOn ","
+  match parseItems (toks.length + 1) [] toks with
+  | some (cs, rows, []) => some (cs, rows)
+  | _ => none
+
+def parseAncItems : Nat → List String → Option (List (Str × Anc) × List String)
+  | 0, _ => none
+  | _ + 1, [] => some ([], [])
+  | fuel + 1, tok :: rest =>
+    if tok == "]" then some ([], tok :: rest) else
+    match tok.splitOn ":" with
+    | [k, h] =>
+      match decStr h with
+      | none => none
+      | some name =>
+        if k == "d" then
+          match rest with
+          | "[" :: rest1 =>
+            match parseAncItems fuel rest1 with
+            | some (cs, "]" :: rest2) =>
+              match parseAncItems fuel rest2 with
+              | some (sibs, r) => some ((name, Anc.mk true cs) :: sibs, r)
+              | none => none
+            | _ => none
+          | _ => none
+        else
+          match parseAncItems fuel rest with
+          | some (sibs, r) => some ((name, Anc.mk false []) :: sibs, r)
+          | none => none
+    | _ => none
+
+def parseAnc (s : String) : Option (Option Anc) :=
+  if s == "-" then some none
+  else if s == "@" then some (some (Anc.mk true []))
+  else
+    let toks := s.splitOn ","
+    match parseAncItems (toks.length + 1) toks with
+    | some (cs, []) => some (some (Anc.mk true cs))
+    | _ => none
+
+mutual
+def showEntries (prefixPath : Str) : List (Str × SEntry) → List String
+  | [] => []
+  | (name, e) :: rest => showEntry (joinable prefixPath ++ name) e ++ showEntries prefixPath rest
+def showEntry (path : Str) : SEntry → List String
+  | .file => [s!"{encStr path}:f"]
+  | .link => [s!"{encStr path}:l"]
+  | .untracked => [s!"{encStr path}:u"]
+  | .dir ph cs => s!"{encStr path}:{if ph then "p" else "d"}" :: showEntries path cs
+end
+
+def showList (l : List String) : String := if l.isEmpty then "-" else ",".intercalate l
+
+def showIncluded : Included → String
+  | .file p => s!"{encStr p}:f"
+  | .link p => s!"{encStr p}:l"
+  | .dir p => s!"{encStr p}:d"
+
+def handle (line : String) : String :=
+  match fields line with
+  | ["w", pats, anc, tree] =>
+    match parsePats pats, parseAnc anc, parseTree tree with
+    | some ps, some a, some (cs, rows) =>
+      let excl : Pat → Bool := fun p => p.2.1
+      let text : Pat → Str := fun p => p.2.2
+      let m : Pat → Str → Bool := fun p path =>
+        match rows.find? (fun r => r.1 = path) with
+        | some r => r.2.getD p.1 false
+        | none => false
+      let ign : IgnoreFn := matchesForMutagen excl text m ps
+      let (reified, count) := reifyRoot a (scanRoot ign cs)
+      let snap := match reified with
+        | .dir _ es => showList (showEntries [] es)
+        | .untracked => "root-untracked"
+        | _ => "bad-root"
+      let spec := (specLeaves excl text m ps cs).map showIncluded
+      let dspec := (dockerSpecLeaves excl text m ps cs).map showIncluded
+      let dock := (dockerWalk excl text m ps cs).map showIncluded
+      let h := noDepthOrderInversion excl m ps cs
+      let ig := (allNodes cs).map fun n =>
+        let (st, c) := ign n.path (n.kind == 2)
+        (match st with | .nominal => "n" | .ignored => "i" | .unignored => "u") ++ (if c then "1" else "0")
+      s!"I={showList ig};S={snap};N={count};M={showList spec};C={showList dspec};D={showList dock};H={if h then "1" else "0"}"
+    | _, _, _ => "bad-op"
+  | ["c", p] =>
+    match decStr p with
+    | some p =>
+      if p.contains '[' || p.contains ']' then "unsupported" else
+      match cleanPattern p with
+      | .ok (x, c) => s!"ok {if x then "x" else "i"} {encStr c}"
+      | .error e =>
+        let k := match e with
+          | .backslash => "backslash" | .empty => "empty" | .negatedEmpty => "negated-empty"
+          | .root => "root" | .illegalExclusion => "illegal-exclusion" | .dropped => "dropped"
+        s!"err {k}"
+    | none => "bad-op"
+  | _ => "bad-op"
 
 end Mutagen.Driver.C15
